@@ -65,7 +65,7 @@ func jsBytes(b blob.Blob) (out []byte, ok bool) {
 
 // execTyped runs a history on idbblob.  sparse: the contents of the blobs are read only where the history says so and
 // at the end (so most blobs have no Go-side cache while they are operated on); otherwise after every op.
-func execTyped(ops []bOp, sparse bool) (text []string, oracle, sig string, cells []string) {
+func execTyped(ops []bOp, sparse bool) (text []string, oracle, sig string, cells []string, opsC, obsC []string) {
 	var bl []blob.Blob
 	var rl []*refBlob
 	var group []int // alias group of each reference blob
@@ -144,6 +144,26 @@ func execTyped(ops []bOp, sparse bool) (text []string, oracle, sig string, cells
 			return
 		}
 		text = append(text, o.text()+" -> "+res)
+		if inRange {
+			// for the model of the JS side (Blob/Typed.v): the result and the JS array of every handle, read directly
+			cres := res
+			if o.kind == "bytes" {
+				if jb, ok := jsBytes(bl[o.b]); ok {
+					cres = "RBytes " + cBytes(jb)
+				}
+			}
+			snap := make([]string, 0, len(bl))
+			okAll := true
+			for _, b := range bl {
+				jb, ok := jsBytes(b)
+				okAll = okAll && ok
+				snap = append(snap, cBytes(jb))
+			}
+			if okAll {
+				opsC = append(opsC, o.coq())
+				obsC = append(obsC, cPair(cres, cList(snap)))
+			}
+		}
 		cls := "ok"
 		if failed {
 			cls = "err"
@@ -265,11 +285,18 @@ func runC19Wasm(r *Rng, n int, replay string) {
 			ops = kept
 		}
 		sparse := id%4 >= 2
-		text, oracle, sig, cells := execTyped(ops, sparse)
+		text, oracle, sig, cells, opsC, obsC := execTyped(ops, sparse)
 		kind := "typed-array/dense"
 		if sparse {
 			kind = "typed-array/sparse"
 		}
-		emit(&Case{ID: id, Kind: kind, Text: text, Oracle: oracle, Sig: sig, Cells: cells, Trivial: true})
+		c := &Case{ID: id, Kind: kind, Text: text, Oracle: oracle, Sig: sig, Cells: cells, Trivial: true}
+		if id%2 == 1 && len(opsC) >= 3 {
+			// in-range histories: what the JS arrays held after every step, replayed through the model of the JS side
+			c.Trivial = false
+			c.Coq = cPair(cList(opsC), cList(obsC))
+			c.CType, c.Check = "C19typed_case", "C19typed_check"
+		}
+		emit(c)
 	}
 }
